@@ -28,6 +28,12 @@ def gen(rng, tier):
         bc = streamgen.bytesc_case(fam, data, qs)
         _pairs[sc] = (bc, qs, data, fam)
         cases += [sc, bc]
+        cv = streamgen.covering_variant(rng, data, meta) if i % 3 == 0 else None
+        if cv:                    # overlapping symbol / string / version sections covering the whole file
+            q3 = ["ehdr", "shdrs", "phdrs"] + cv[1]
+            sc2, bc2 = streamgen.stream_case(fam, cv[0], "plain", [], q3), streamgen.bytesc_case(fam, cv[0], q3)
+            _pairs[sc2] = (bc2, q3, cv[0], fam)
+            cases += [sc2, bc2]
         if i % 5 == 0:            # an empty program header table declared exactly at EOF (and one past it)
             for off in (len(data), len(data) + 1, len(data) - 1):
                 d2 = elfgen.patch(elfgen.patch(elfgen.patch(data, meta, "ehdr", "e_phoff", off), meta, "ehdr", "e_phnum", 0),
